@@ -37,9 +37,11 @@ def main():
         res['demo_patched_rc'] = rc
         res['demo_tail'] = out.strip().splitlines()[-1][:200] if out.strip() else ''
         det = {}
-        for i in range(1, 21):
-            pid = 'C%02d' % i
-            rc, out = sh('./check %s --repo %s --no-evidence' % (pid, wt), cwd=HERE)
+        from concurrent.futures import ThreadPoolExecutor
+        pids = ['C%02d' % i for i in range(1, 21)]
+        with ThreadPoolExecutor(16) as ex:
+            results = list(ex.map(lambda pid: sh('./check %s --repo %s --no-evidence' % (pid, wt), cwd=HERE), pids))
+        for pid, (rc, out) in zip(pids, results):
             if rc != 0:
                 lines = [l.strip() for l in out.splitlines() if l.startswith('  R-') or l.startswith('ANALYSIS-ERROR')]
                 det[pid] = {'rc': rc, 'findings': [l[:260] for l in lines[:4]]}
